@@ -49,7 +49,7 @@ def newer(target, deps):
 
 
 def run(cmd, **kw):
-    return subprocess.run(cmd, stdout=subprocess.PIPE, stderr=subprocess.STDOUT, text=True, **kw)
+    return subprocess.run(cmd, stdout=subprocess.PIPE, stderr=subprocess.STDOUT, text=True, errors="replace", **kw)
 
 
 def objdir(variant):
@@ -445,3 +445,82 @@ def setup():
         if "setup" in cfg:
             cfg["setup"](prop, cfg)
     return 0
+
+
+# ---------------------------------------------------------------- libFuzzer stages
+
+def build_fuzz_binary(prop, sources, name=None, extra_cflags=()):
+    B.build("fuzz")
+    objs = compile_objs("fuzz", list(sources), extra_cflags)
+    return link("fuzz", name or (prop.lower() + "_fuzz"), objs, cxx_link=True)
+
+
+def run_libfuzzer(exe, prop, stage, seed_corpus, dictfile, seconds, max_len, nworkers=None, extra_args=()):
+    """Run `nworkers` independent libFuzzer processes (own corpus copy, own seed).  Returns
+    (stats list, crash artifact paths)."""
+    nworkers = nworkers or NCPU
+    base = os.path.join(WORK, "runs", prop, stage)
+    shutil.rmtree(base, ignore_errors=True)
+    os.makedirs(base, exist_ok=True)
+    procs = []
+    for k in range(nworkers):
+        wdir = os.path.join(base, "w%d" % k)
+        os.makedirs(os.path.join(wdir, "corpus"))
+        os.makedirs(os.path.join(wdir, "artifacts"))
+        # half of the workers start from the seed corpus, the others from an empty one
+        seeds = [seed_corpus] if (seed_corpus and k % 2 == 0) else []
+        env = child_env("fuzz")
+        env["VERIF_FUZZ_STATS"] = os.path.join(wdir, "stats.json")
+        env["ASAN_OPTIONS"] = "abort_on_error=1:detect_leaks=0:allocator_may_return_null=1"
+        cmd = [exe, os.path.join(wdir, "corpus")] + seeds + [
+            "-seed=%d" % (SEED * 1000003 + k + 1), "-max_total_time=%d" % int(seconds), "-max_len=%d" % max_len,
+            "-artifact_prefix=" + os.path.join(wdir, "artifacts") + "/", "-print_final_stats=1", "-timeout=20",
+            "-rss_limit_mb=2048", "-verbosity=0"] + list(extra_args)
+        if dictfile:
+            cmd.append("-dict=" + dictfile)
+        logf = open(os.path.join(wdir, "log"), "w")
+        procs.append((k, subprocess.Popen(cmd, stdout=logf, stderr=subprocess.STDOUT, env=env, cwd=wdir), wdir, logf))
+    stats, crashes = [], []
+    for k, p, wdir, logf in procs:
+        try:
+            p.wait(timeout=seconds + 120)
+        except subprocess.TimeoutExpired:
+            p.kill()
+            p.wait()
+        logf.close()
+        st = {}
+        sp = os.path.join(wdir, "stats.json")
+        if os.path.exists(sp):
+            try:
+                st = json.load(open(sp))
+            except Exception:
+                st = {}
+        with open(os.path.join(wdir, "log"), errors="replace") as f:
+            logtxt = f.read()
+        import re
+        m = re.search(r"stat::number_of_executed_units:\s*(\d+)", logtxt)
+        if m:
+            st["libfuzzer_executed_units"] = int(m.group(1))
+        m = re.findall(r"cov: (\d+) ft: (\d+)", logtxt)
+        if m:
+            st["cov"], st["ft"] = int(m[-1][0]), int(m[-1][1])
+        st["worker"] = k
+        st["rc"] = p.returncode
+        stats.append(st)
+        for a in sorted(glob.glob(os.path.join(wdir, "artifacts", "crash-*")) + glob.glob(os.path.join(wdir, "artifacts", "leak-*"))):
+            crashes.append(a)
+    return stats, crashes
+
+
+def replay_fuzz_artifact(exe, artifact, times=3):
+    """returns 'fail' if the artifact crashes every time, 'pass' if never, else 'unstable'; plus the last output"""
+    fails = 0
+    out = ""
+    for _ in range(times):
+        env = child_env("fuzz")
+        env["ASAN_OPTIONS"] = "abort_on_error=1:detect_leaks=0:allocator_may_return_null=1"
+        r = run([exe, artifact, "-timeout=20", "-rss_limit_mb=2048"], env=env)
+        out = r.stdout
+        if r.returncode != 0:
+            fails += 1
+    return ("fail" if fails == times else "pass" if fails == 0 else "unstable"), out
